@@ -109,7 +109,13 @@ def s1_job_maker(harness):
                 harness(E, ctx, aux, desc)
                 return
             for r in routes:
-                d = dict(desc, route=r)
+                if r.startswith("final:"):
+                    # the same graph under another naming (e.g. names that sort after every generated name), last stage only
+                    px = r.split(":")[1]
+                    m = {n: px + n[len(prefix):] for n in desc["names"]}
+                    d = {"names": [m[n] for n in desc["names"]], "succ": [[m[t] for t in s_] for s_ in desc["succ"]], "route": "final"}
+                else:
+                    d = dict(desc, route=r)
                 ctx.current = d
                 harness(E, ctx, aux, d)
 
@@ -141,7 +147,7 @@ def _s1_jobs(tier, mk, quick_n5_max_edges, with_routes, n5_routes=True):
     jobs.append(mk("S1-N4-all-entries-numeric-names", 4, None, exp=expected(4, None), prefix=""))
     # histories: the graph is written to a dictionary / YAML and read back between two stages
     RELOADS = ["reload@1", "reload@2", "yreload@2", "alias@2"]
-    BOTH = ["direct", "reload@2", "alias@2"] if (with_routes and n5_routes) else None
+    BOTH = ["direct", "reload@2", "alias@2", "final:z"] if (with_routes and n5_routes) else None
     if os.environ.get("VERIF_PROBE"):
         jobs.append(mk("probe-counters", 5, 0, counters=[int(x) for x in os.environ["VERIF_PROBE"].split(",")]))
     if with_routes:
@@ -150,11 +156,11 @@ def _s1_jobs(tier, mk, quick_n5_max_edges, with_routes, n5_routes=True):
         jobs.append(mk("F7dag-N7-entry-b0-forward-edges", 7, 0, dag=True, budget=1200.0, required=False))
     if tier == "quick":
         if quick_n5_max_edges is None:
-            jobs.append(mk("S1-N5-entry-b0" + ("-direct-reloaded-aliased" if BOTH else ""), 5, 0, exp=expected(5, 0), routes=BOTH))
+            jobs.append(mk("S1-N5-entry-b0" + ("-direct-reloaded-aliased-znamed" if BOTH else ""), 5, 0, exp=expected(5, 0), routes=BOTH))
         else:
             jobs.append(mk(f"S1-N5-entry-b0-le{quick_n5_max_edges}-edges", 5, 0, max_edges=quick_n5_max_edges))
     else:
-        jobs.append(mk("S1-N5-all-entries" + ("-direct-reloaded-aliased" if BOTH else ""), 5, None, exp=expected(5, None), budget=3000.0, routes=BOTH))
+        jobs.append(mk("S1-N5-all-entries" + ("-direct-reloaded-aliased-znamed" if BOTH else ""), 5, None, exp=expected(5, None), budget=3000.0, routes=BOTH))
         jobs.append(mk("S1-N5-entry-b0-z-names", 5, 0, exp=expected(5, 0), prefix="z"))
         jobs.append(mk("F6-N6-entry-b0-le7-edges", 6, 0, max_edges=7, budget=600.0, required=False))
         # shape-directed families (spaces.loop_feature): the solver supplies the graphs with the rare shape
